@@ -191,6 +191,21 @@ fn typed_constant_cases() -> Vec<Case> {
             out.push(Case { id: format!("SpecConstant:{}:pattern{}", tn, k), insts: vec![ty.clone(), sc], raw: None, version: 0x0001_0400, bound: 30 });
         }
     }
+    // every id renamed (descending, scattered, across 2^16 / 2^22, just below 2^32), with a second type and constant in
+    // front so that ids are first seen out of order: how a literal is printed must not depend on the magnitude of the
+    // type's id or on the order of declaration
+    let base: Vec<Case> = out.iter().filter(|c| c.id.contains(":pattern1") || c.id.contains(":pattern9") || c.id.contains(":pattern12")).map(|c| Case { id: c.id.clone(), insts: c.insts.clone(), raw: None, version: c.version, bound: c.bound }).collect();
+    for c in base {
+        for scheme in 0..model::RELABELLINGS {
+            let f = |x: u32| model::relabel(scheme, x);
+            let mut insts = vec![
+                model::remap_ids(&Inst::new("TypeInt", None, Some(40), vec![Arg::Lit32(32), Arg::Lit32(0)]), &f),
+                model::remap_ids(&Inst::new("Constant", Some(40), Some(41), vec![Arg::Lit32(77)]), &f),
+            ];
+            insts.extend(c.insts.iter().map(|i| model::remap_ids(i, &f)));
+            out.push(Case { id: format!("{}:ids{}", c.id, scheme), insts, raw: None, version: c.version, bound: c.bound });
+        }
+    }
     out
 }
 
